@@ -39,6 +39,10 @@ struct Level {
     /// pixels of this level when its (currently open) layer was pushed
     base: Option<Vec<u32>>,
     layer: Option<(f32, u8)>,
+    /// for a group twin: the extent of the layer it stands for (the clip rectangles in force
+    /// at the push, limited to the surface). Nothing can be drawn into the layer outside of it,
+    /// whatever happens to the clip stack afterwards.
+    rect: Option<[i32; 4]>,
 }
 
 fn viol(oracle: &'static str, step: usize, detail: String) -> Outcome {
@@ -328,9 +332,18 @@ struct ClipView {
     k: Option<Vec<u8>>,
 }
 
-fn clip_view(clips: &[ClipModel], w: i32, h: i32) -> ClipView {
+fn clip_view(clips: &[ClipModel], extent: Option<[i32; 4]>, w: i32, h: i32) -> ClipView {
     let n = (w * h) as usize;
     let mut inside = vec![true; n];
+    if let Some(r) = extent {
+        for py in 0..h {
+            for px in 0..w {
+                if !(px >= r[0] && px < r[2] && py >= r[1] && py < r[3]) {
+                    inside[(py * w + px) as usize] = false;
+                }
+            }
+        }
+    }
     let mut k: Option<Vec<u8>> = None;
     for c in clips {
         match c {
@@ -362,7 +375,7 @@ pub fn run_tower(prop: Prop, h: &History, st: &mut Stats) -> Outcome {
     let (w, hh) = (surf.w, surf.h);
     let n = (w * hh) as usize;
     let budget = h.tick_budget;
-    let mut levels: Vec<Level> = vec![Level { world: World::new(&h.surfaces[..1]), base: None, layer: None }];
+    let mut levels: Vec<Level> = vec![Level { world: World::new(&h.surfaces[..1]), base: None, layer: None, rect: None }];
     let mut clips: Vec<ClipModel> = Vec::new();
     let mut brackets: Vec<Br> = Vec::new();
     let mut checked_draws = 0u64;
@@ -388,7 +401,7 @@ pub fn run_tower(prop: Prop, h: &History, st: &mut Stats) -> Outcome {
             if let Err(pi) = res {
                 // C06: a layer under an empty clip must be harmless
                 if prop == Prop::C06 {
-                    let cv = clip_view(&clips, w, hh);
+                    let cv = clip_view(&clips, None, w, hh);
                     let empty = !cv.inside.iter().any(|b| *b);
                     let in_layer = brackets.iter().any(|b| matches!(b, Br::Layer)) || matches!($step.op, Op::PushLayer { .. });
                     if empty && in_layer && pi.budget_site.is_none() {
@@ -439,6 +452,9 @@ pub fn run_tower(prop: Prop, h: &History, st: &mut Stats) -> Outcome {
             Op::PopClip => {
                 // the most recently pushed clip, which need not be the innermost bracket
                 if let Some(bi) = brackets.iter().rposition(|b| matches!(b, Br::Clip)) {
+                    if bi + 1 != brackets.len() {
+                        st.count("perturbation.pop_clip_below_open_layer");
+                    }
                     run_all!(step, i);
                     clips.pop();
                     brackets.remove(bi);
@@ -449,9 +465,31 @@ pub fn run_tower(prop: Prop, h: &History, st: &mut Stats) -> Outcome {
                 let lv = &mut levels[top];
                 lv.base = Some(lv.world.surfs[0].pixels().to_vec());
                 lv.layer = Some((opacity.0, if *plain { BLEND_SRC_OVER } else { *blend }));
-                // the group twin: transparent, same transform, same clip stack
+                // the extent of the layer: every clip rectangle in force now, on the surface
+                let mut ext = [0, 0, w, hh];
+                for c in &clips {
+                    if let ClipModel::Rect(r) = c {
+                        ext = [ext[0].max(r[0]), ext[1].max(r[1]), ext[2].min(r[2]), ext[3].min(r[3])];
+                    }
+                }
+                if let Some(outer) = lv.rect {
+                    // (a nested layer is not limited by its parent's extent while it is drawn
+                    // into, only when it is composited into the parent; `outer` is therefore
+                    // not intersected here)
+                    let _ = outer;
+                }
+                // the group twin: transparent, same transform, same clip stack, and underneath
+                // everything a clip rectangle standing for the layer's extent, which stays
+                // even if the clips it was derived from are popped before the layer
                 let mut sh = lv.world.shadows[0].clone();
                 sh.brackets.retain(|b| !matches!(b.0, mk::Bracket::Layer));
+                if let Some((mk::Bracket::ClipRect(_), _)) = sh.brackets.first() {
+                    // the parent twin's own hidden extent is not part of the visible clip stack
+                    if lv.rect.is_some() {
+                        sh.brackets.remove(0);
+                    }
+                }
+                sh.brackets.insert(0, (mk::Bracket::ClipRect(ext), mat_identity()));
                 let fresh = match mk::guarded(budget, || World::fresh_like(w, hh, &vec![0; n], &sh)) {
                     Ok(f) => f,
                     Err(pi) => {
@@ -462,13 +500,18 @@ pub fn run_tower(prop: Prop, h: &History, st: &mut Stats) -> Outcome {
                 let mut world = World::new(&[]);
                 world.surfs.push(fresh);
                 world.shadows.push(sh);
-                levels.push(Level { world, base: None, layer: None });
+                levels.push(Level { world, base: None, layer: None, rect: Some(ext) });
                 brackets.push(Br::Layer);
                 st.count("twin.group_twins");
             }
             Op::PopLayer => {
-                if !matches!(brackets.last(), Some(Br::Layer)) || levels.len() < 2 {
-                    continue;
+                // the innermost open layer, which need not be the innermost bracket
+                let bi = match brackets.iter().rposition(|b| matches!(b, Br::Layer)) {
+                    Some(bi) if levels.len() >= 2 => bi,
+                    _ => continue,
+                };
+                if bi + 1 != brackets.len() {
+                    st.count("perturbation.pop_layer_with_clips_open_inside");
                 }
                 let group = levels.pop().unwrap();
                 let group_px = group.world.surfs[0].pixels().to_vec();
@@ -476,12 +519,12 @@ pub fn run_tower(prop: Prop, h: &History, st: &mut Stats) -> Outcome {
                 let prev = levels[below].world.surfs[0].pixels().to_vec();
                 let (opacity, blend) = levels[below].layer.unwrap();
                 run_all!(step, i);
-                brackets.pop();
+                brackets.remove(bi);
                 levels[below].base = None;
                 levels[below].layer = None;
                 let obs = levels[below].world.surfs[0].pixels();
                 let cbyte = (opacity * 255. + 0.5) as u8;
-                let cv = clip_view(&clips, w, hh);
+                let cv = clip_view(&clips, levels[below].rect, w, hh);
                 if matches!(prop, Prop::C02 | Prop::C03 | Prop::C05 | Prop::C06) {
                     checked_pops += 1;
                     for p in 0..n {
@@ -629,7 +672,7 @@ pub fn run_tower(prop: Prop, h: &History, st: &mut Stats) -> Outcome {
                     st.count("perturbation.nop_draw");
                 }
                 let obs = levels[top].world.surfs[0].pixels();
-                let cv = clip_view(&clips, w, hh);
+                let cv = clip_view(&clips, levels[top].rect, w, hh);
                 let mode = op_blend(op);
                 if !clips.is_empty() && obs != &prev[..] {
                     changed_while_clipped = true;
